@@ -5,6 +5,7 @@ import (
 	"go/ast"
 	"go/token"
 	"go/types"
+	"strconv"
 )
 
 // TypeConverter handles conversion of types.Type to ast.Expr with proper package qualifiers.
@@ -178,24 +179,28 @@ func (tc *TypeConverter) TypeToExpr(t types.Type) ast.Expr {
 	}
 	switch typ := t.(type) {
 	case *types.Named:
-		obj := typ.Obj()
-		if obj.Pkg() == nil {
-			// Built-in type (e.g., error)
-			return ast.NewIdent(obj.Name())
+		return tc.typeNameToExpr(typ.Obj(), typ.TypeArgs())
+	case *types.Alias:
+		return tc.typeNameToExpr(typ.Obj(), typ.TypeArgs())
+	case *types.Signature:
+		return &ast.FuncType{
+			Params:  tc.tupleToFields(typ.Params(), typ.Variadic()),
+			Results: tc.tupleToFields(typ.Results(), false),
 		}
-		// Check if this type is from an external package
-		if tc.currentPkg != nil && obj.Pkg() != tc.currentPkg {
-			// External package - add import and generate SelectorExpr
-			pkgPath := obj.Pkg().Path()
-			pkgName := obj.Pkg().Name()
-			actualName := tc.AddImport(pkgPath, pkgName)
-			return &ast.SelectorExpr{
-				X:   tc.qualifierIdent(actualName),
-				Sel: ast.NewIdent(obj.Name()),
+	case *types.Struct:
+		fields := &ast.FieldList{}
+		for i := range typ.NumFields() {
+			f := typ.Field(i)
+			field := &ast.Field{Type: tc.TypeToExpr(f.Type())}
+			if !f.Embedded() {
+				field.Names = []*ast.Ident{ast.NewIdent(f.Name())}
 			}
+			if tag := typ.Tag(i); tag != "" {
+				field.Tag = &ast.BasicLit{Kind: token.STRING, Value: strconv.Quote(tag)}
+			}
+			fields.List = append(fields.List, field)
 		}
-		// Same package - just use the type name
-		return ast.NewIdent(obj.Name())
+		return &ast.StructType{Fields: fields}
 	case *types.Pointer:
 		return &ast.StarExpr{X: tc.TypeToExpr(typ.Elem())}
 	case *types.Slice:
@@ -234,6 +239,46 @@ func (tc *TypeConverter) TypeToExpr(t types.Type) ast.Expr {
 	default:
 		return ast.NewIdent(t.String())
 	}
+}
+
+// typeNameToExpr spells a declared type: qualified when it lives in another package,
+// followed by its type arguments when it is an instance of a generic type.
+func (tc *TypeConverter) typeNameToExpr(obj *types.TypeName, args *types.TypeList) ast.Expr {
+	var expr ast.Expr = ast.NewIdent(obj.Name())
+	// Built-in types (e.g., error) have no package; types of the current package stay unqualified
+	if obj.Pkg() != nil && tc.currentPkg != nil && obj.Pkg() != tc.currentPkg {
+		// External package - add import and generate SelectorExpr
+		actualName := tc.AddImport(obj.Pkg().Path(), obj.Pkg().Name())
+		expr = &ast.SelectorExpr{
+			X:   tc.qualifierIdent(actualName),
+			Sel: ast.NewIdent(obj.Name()),
+		}
+	}
+	if args.Len() == 0 {
+		return expr
+	}
+	indices := make([]ast.Expr, 0, args.Len())
+	for i := range args.Len() {
+		indices = append(indices, tc.TypeToExpr(args.At(i)))
+	}
+	if len(indices) == 1 {
+		return &ast.IndexExpr{X: expr, Index: indices[0]}
+	}
+	return &ast.IndexListExpr{X: expr, Indices: indices}
+}
+
+// tupleToFields converts the parameters or results of a function type.
+func (tc *TypeConverter) tupleToFields(tuple *types.Tuple, variadic bool) *ast.FieldList {
+	fields := &ast.FieldList{}
+	for i := range tuple.Len() {
+		typ := tuple.At(i).Type()
+		if slice, ok := typ.(*types.Slice); ok && variadic && i == tuple.Len()-1 {
+			fields.List = append(fields.List, &ast.Field{Type: &ast.Ellipsis{Elt: tc.TypeToExpr(slice.Elem())}})
+			continue
+		}
+		fields.List = append(fields.List, &ast.Field{Type: tc.TypeToExpr(typ)})
+	}
+	return fields
 }
 
 // lastPathElement returns the last element of an import path.
